@@ -2,6 +2,7 @@ package main
 
 import (
 	"fmt"
+	"sort"
 	"go/ast"
 	"go/token"
 	"go/types"
@@ -84,8 +85,47 @@ func c01R8(ic *IC, r *Report, rule string, only map[string]bool) {
 		for _, fl := range (&c02ctx{ic: ic}).closuresOf(fi) {
 			idx++
 			nClosures++
-			isStore := func(n ast.Node) bool {
-				found := false
+			// locals of the closure holding the value of a result accessor: result := vres(f)
+			local := map[types.Object]types.Object{}
+			ast.Inspect(fl.Body, func(m ast.Node) bool {
+				as, ok := m.(*ast.AssignStmt)
+				if !ok || len(as.Lhs) != len(as.Rhs) {
+					return true
+				}
+				for i, rhs := range as.Rhs {
+					if inner, ok := unparen(rhs).(*ast.CallExpr); ok {
+						if id, ok := unparen(inner.Fun).(*ast.Ident); ok && dests[info.ObjectOf(id)] {
+							if lid, ok := as.Lhs[i].(*ast.Ident); ok && info.ObjectOf(lid) != nil {
+								local[info.ObjectOf(lid)] = info.ObjectOf(id)
+							}
+						}
+					}
+				}
+				return true
+			})
+			// a store under `if <flag>` where flag is a boolean fixed when the closure is generated
+			// (a variable of the generator) is compiled in or out as a whole: not a path of the closure
+			genTimeGuarded := func(c ast.Node) bool {
+				for _, p := range enclosingPath(fl.Body, c) {
+					ifs, ok := p.(*ast.IfStmt)
+					if !ok || ifs.Init != nil {
+						continue
+					}
+					cond := unparen(ifs.Cond)
+					if u, ok := cond.(*ast.UnaryExpr); ok && u.Op == token.NOT {
+						cond = unparen(u.X)
+					}
+					if id, ok := cond.(*ast.Ident); ok {
+						if v, ok := info.ObjectOf(id).(*types.Var); ok && (v.Pos() < fl.Pos() || v.Pos() > fl.End()) && !assignedIn(info, fl.Body, v) {
+							return true
+						}
+					}
+				}
+				return false
+			}
+			// storeOf: the result accessors the node stores through (X.Set*(...) with X = dest(f) or a local holding it)
+			storesOf := func(n ast.Node) map[types.Object]bool {
+				found := map[types.Object]bool{}
 				ast.Inspect(n, func(m ast.Node) bool {
 					if _, ok := m.(*ast.FuncLit); ok {
 						return false
@@ -98,56 +138,61 @@ func c01R8(ic *IC, r *Report, rule string, only map[string]bool) {
 					if !ok || !strings.HasPrefix(se.Sel.Name, "Set") {
 						return true
 					}
+					if genTimeGuarded(c) {
+						return true
+					}
 					if inner, ok := unparen(se.X).(*ast.CallExpr); ok {
 						if id, ok := unparen(inner.Fun).(*ast.Ident); ok && dests[info.ObjectOf(id)] {
-							found = true
+							found[info.ObjectOf(id)] = true
+						}
+					}
+					if id, ok := unparen(se.X).(*ast.Ident); ok {
+						if d, ok := local[info.ObjectOf(id)]; ok {
+							found[d] = true
 						}
 					}
 					return true
 				})
 				return found
 			}
-			has := false
-			ast.Inspect(fl.Body, func(m ast.Node) bool {
-				if m != nil && isStore(m) {
-					has = true
-				}
-				return !has
-			})
-			if !has {
+			stored := storesOf(fl.Body)
+			if len(stored) == 0 {
 				continue
 			}
 			nChecked++
 			g := cfg.New(fl.Body, func(c *ast.CallExpr) bool { return !noReturn(info, c) })
-			// forward reachability from the entry avoiding blocks... node-precise: walk nodes
-			type pos struct {
-				b *cfg.Block
-			}
-			seen := map[*cfg.Block]bool{}
 			var missing []string
-			var walk func(b *cfg.Block)
-			walk = func(b *cfg.Block) {
-				if seen[b] {
-					return
-				}
-				seen[b] = true
-				for _, nd := range b.Nodes {
-					if isStore(nd) {
-						return // stored on this path
-					}
-					if rs, ok := nd.(*ast.ReturnStmt); ok && len(rs.Results) == 1 {
-						if id, ok := unparen(rs.Results[0]).(*ast.Ident); ok && id.Name == "nil" {
-							continue
-						}
-						missing = append(missing, "return "+types.ExprString(rs.Results[0])+" at "+ic.pos(rs.Pos()))
-					}
-				}
-				for _, s := range b.Succs {
-					walk(s)
-				}
+			var storedObjs []types.Object
+			for d := range stored {
+				storedObjs = append(storedObjs, d)
 			}
-			if len(g.Blocks) > 0 {
-				walk(g.Blocks[0])
+			sort.Slice(storedObjs, func(i, j int) bool { return storedObjs[i].Pos() < storedObjs[j].Pos() })
+			for _, d := range storedObjs {
+				seen := map[*cfg.Block]bool{}
+				var walk func(b *cfg.Block)
+				walk = func(b *cfg.Block) {
+					if seen[b] {
+						return
+					}
+					seen[b] = true
+					for _, nd := range b.Nodes {
+						if storesOf(nd)[d] {
+							return // stored on this path
+						}
+						if rs, ok := nd.(*ast.ReturnStmt); ok && len(rs.Results) == 1 {
+							if id, ok := unparen(rs.Results[0]).(*ast.Ident); ok && id.Name == "nil" {
+								continue
+							}
+							missing = append(missing, "return "+types.ExprString(rs.Results[0])+" at "+ic.pos(rs.Pos())+" (result "+d.Name()+")")
+						}
+					}
+					for _, s := range b.Succs {
+						walk(s)
+					}
+				}
+				if len(g.Blocks) > 0 {
+					walk(g.Blocks[0])
+				}
 			}
 			key := fmt.Sprintf("%s/closure#%d/result-stored-on-every-path", name, idx)
 			if why, ok := resultStoreExceptions[fmt.Sprintf("%s/closure#%d", name, idx)]; ok && len(missing) > 0 {
@@ -161,7 +206,7 @@ func c01R8(ic *IC, r *Report, rule string, only map[string]bool) {
 	r.Info["result_storing_closures_checked"] = nChecked
 	floor := 50
 	if only != nil {
-		floor = len(only)
+		floor = 2 // the two closures of recv2 (the other channel generators write their slot directly)
 	}
 	if nChecked < floor {
 		r.Errorf("%s: only %d result-storing closures analysed (of %d)", rule, nChecked, nClosures)
@@ -561,4 +606,178 @@ func c01R12(ic *IC, r *Report) {
 	if nGen < 10 || nIfs < 40 {
 		r.Errorf("R01.12: only %d generators with %d judged branch decisions (10 and 40 expected)", nGen, nIfs)
 	}
+}
+
+// R01.14: cfg may turn an assignment into a no-op (n.gen = nop) when the right-hand side
+// writes its result straight into the destination (call, receive, struct literal, arithmetic).
+// The decision is taken per (destination, source) pair inside the loop over the pairs, but it
+// disables the whole statement: for a multiple assignment every other pair is dropped
+// (x, y = <-ch, 7 leaves y unchanged) and nothing evaluates the sources before the
+// destinations. Every such statement must be unreachable when the assignment has several
+// destinations (conditions evaluated three-valued under n.nleft > 1, n.nright > 1, len(n.child) >= 4).
+func c01R14(ic *IC, r *Report, rule string) {
+	fi := ic.fn(r, "Interpreter.cfg")
+	if fi == nil {
+		return
+	}
+	info := ic.Info
+	genFld := ic.field("node", "gen")
+	isConstNamed := func(e ast.Expr, names ...string) bool {
+		id, ok := unparen(e).(*ast.Ident)
+		if !ok {
+			return false
+		}
+		c, ok := info.Uses[id].(*types.Const)
+		if !ok {
+			return false
+		}
+		for _, n := range names {
+			if c.Name() == n {
+				return true
+			}
+		}
+		return false
+	}
+	atom := func(e ast.Expr) int {
+		be, ok := e.(*ast.BinaryExpr)
+		if !ok {
+			return triUnknown
+		}
+		tv, okc := info.Types[be.Y]
+		if !okc || tv.Value == nil {
+			return triUnknown
+		}
+		k := tv.Value.ExactString()
+		xs := types.ExprString(be.X)
+		switch xs {
+		case "n.nleft", "n.nright":
+			switch {
+			case be.Op == token.GTR && k == "1", be.Op == token.GEQ && k == "2", be.Op == token.NEQ && k == "1":
+				return triTrue
+			case be.Op == token.EQL && k == "1", be.Op == token.LSS && k == "2", be.Op == token.LEQ && k == "1":
+				return triFalse
+			}
+		case "len(n.child)":
+			switch {
+			case be.Op == token.LSS && (k == "4" || k == "3"), be.Op == token.LEQ && (k == "3" || k == "2"), be.Op == token.EQL && (k == "2" || k == "3"):
+				return triFalse
+			case be.Op == token.GEQ && (k == "4" || k == "3"), be.Op == token.GTR && (k == "3" || k == "2"):
+				return triTrue
+			}
+		}
+		return triUnknown
+	}
+	// the assignment case of the post-order switch
+	var assignCase *ast.CaseClause
+	ast.Inspect(fi.Decl.Body, func(n ast.Node) bool {
+		if cc, ok := n.(*ast.CaseClause); ok {
+			has := map[string]bool{}
+			for _, e := range cc.List {
+				if id, ok := unparen(e).(*ast.Ident); ok {
+					has[id.Name] = true
+				}
+			}
+			if has["assignStmt"] && has["defineStmt"] && len(callsIn(info, cc, false, "interp.typecheck.assignExpr")) > 0 {
+				assignCase = cc
+			}
+		}
+		return true
+	})
+	if assignCase == nil {
+		r.Errorf("%s: the post-order case of assignStmt/defineStmt was not found in cfg", rule)
+		return
+	}
+	n := 0
+	ast.Inspect(assignCase, func(nd ast.Node) bool {
+		as, ok := nd.(*ast.AssignStmt)
+		if !ok || len(as.Lhs) != 1 || len(as.Rhs) != 1 || selField(info, as.Lhs[0]) != genFld {
+			return true
+		}
+		if id, ok := unparen(as.Lhs[0].(*ast.SelectorExpr).X).(*ast.Ident); !ok || id.Name != "n" {
+			return true
+		}
+		if id, ok := unparen(as.Rhs[0]).(*ast.Ident); !ok || id.Name != "nop" {
+			return true
+		}
+		guards := pathGuards(assignCase, as)
+		// the loop-variable idiom (i := i) is decided by R01.11
+		idiom := false
+		for _, g := range guards {
+			ast.Inspect(g.cond, func(m ast.Node) bool {
+				if e, ok := m.(ast.Expr); ok && isConstNamed(e, "forStmt7", "rangeStmt") {
+					idiom = true
+				}
+				return true
+			})
+		}
+		if idiom {
+			return true
+		}
+		// not run-time assignments: the guard variable of a type switch (bound by the switch
+		// itself) and constant declarations (nothing to execute, whatever the number of names)
+		other := false
+		for _, g := range guards {
+			ast.Inspect(g.cond, func(m ast.Node) bool {
+				if e, ok := m.(ast.Expr); ok && g.want && isConstNamed(e, "typeSwitch", "constDecl") {
+					other = true
+				}
+				return true
+			})
+		}
+		if other {
+			return true
+		}
+		n++
+		infeasible := ""
+		for _, g := range guards {
+			v := evalCond(g.cond, atom)
+			if (g.want && v == triFalse) || (!g.want && v == triTrue) {
+				infeasible = types.ExprString(g.cond)
+				break
+			}
+		}
+		own := ""
+		for i := len(guards) - 1; i >= 0; i-- {
+			if guards[i].want {
+				own = types.ExprString(guards[i].cond)
+				break
+			}
+		}
+		if len(own) > 60 {
+			own = own[:60] + "..."
+		}
+		r.Check(infeasible != "", rule, fmt.Sprintf("cfg/assign-skipped#%d/single-assignment-only", n), ic.pos(as.Pos()), "excluded for multiple assignments by "+infeasible,
+			"cfg disables the assign operation (n.gen = nop, under "+own+") also for an assignment with several destinations: the decision is taken for one (destination, source) pair but drops the whole statement, so the other destinations are never assigned (x, y = <-ch, 7 leaves y unchanged; a, b = T{1}, c leaves b unchanged) and sources are not evaluated before destinations")
+		return true
+	})
+	if n < 3 {
+		r.Errorf("%s: only %d statements disabling the assign operation found in cfg (call, receive, struct literal, arithmetic expected)", rule, n)
+	}
+}
+
+// assignedIn reports whether v is assigned (or has its address taken) inside n.
+func assignedIn(info *types.Info, n ast.Node, v types.Object) bool {
+	found := false
+	ast.Inspect(n, func(m ast.Node) bool {
+		switch x := m.(type) {
+		case *ast.AssignStmt:
+			for _, l := range x.Lhs {
+				if id, ok := unparen(l).(*ast.Ident); ok && info.ObjectOf(id) == v {
+					found = true
+				}
+			}
+		case *ast.IncDecStmt:
+			if id, ok := unparen(x.X).(*ast.Ident); ok && info.ObjectOf(id) == v {
+				found = true
+			}
+		case *ast.UnaryExpr:
+			if x.Op == token.AND {
+				if id, ok := unparen(x.X).(*ast.Ident); ok && info.ObjectOf(id) == v {
+					found = true
+				}
+			}
+		}
+		return !found
+	})
+	return found
 }
